@@ -243,3 +243,61 @@ Definition ex_state : state :=
                 mk_inst 3 Started [mk_head 1] (Some 1) [] 0 ];
      queue := [EvOther 7] |}.
 Definition ex_orc : nat -> outcome := fun k => if Nat.eqb k 1 then ORaise else OTrue.
+
+(* ------------------------------------------------------------------------------------------ *)
+(* The matching phase of run_to_completion.  `head_candidates` is a SNAPSHOT of (instance, head)
+   pairs taken before the loop; every candidate is looked up again (`flow_state.heads[head_uid]`)
+   when its turn comes.  A match statement whose evaluation raises queues a ColangError and fails
+   its flow - `immediate = false`: after the loop (the code of fix 3241a26), `immediate = true`:
+   inside the loop (the tempting simplification).  `raises u h` = evaluating the match statement of
+   head h of instance u raises. *)
+Inductive mres := MOk (st : state) | MLookupError (u h : nat) | MFuel.
+
+Fixpoint abort_all (fuel : nat) (us : list nat) (st : state) : option state :=
+  match us with
+  | [] => Some st
+  | u :: us' =>
+      match get st u with
+      | Some i => if listening (i_status i)
+                  then match abort fuel st u false (is_started (i_status i)) with
+                       | Some st' => abort_all fuel us' st'
+                       | None => None
+                       end
+                  else abort_all fuel us' st
+      | None => abort_all fuel us' st
+      end
+  end.
+
+Fixpoint match_phase (immediate : bool) (fuel : nat) (cands : list (nat * nat)) (raises : nat -> nat -> bool)
+         (st : state) (errs : list nat) : mres :=
+  match cands with
+  | [] => match abort_all fuel (rev errs) st with Some st' => MOk st' | None => MFuel end
+  | (u, h) :: cs =>
+      match get st u with
+      | None => MLookupError u h
+      | Some i =>
+          match nth_error (i_heads i) h with
+          | None => MLookupError u h
+          | Some _ =>
+              if raises u h then
+                let st1 := push st EvColangError in
+                if immediate then
+                  match abort fuel st1 u false (is_started (i_status i)) with
+                  | Some st2 => match_phase immediate fuel cs raises st2 errs
+                  | None => MFuel
+                  end
+                else match_phase immediate fuel cs raises st1 (u :: errs)
+              else match_phase immediate fuel cs raises st errs
+          end
+      end
+  end.
+
+Definition cand_valid (st : state) (c : nat * nat) : Prop :=
+  exists i hd, get st (fst c) = Some i /\ nth_error (i_heads i) (snd c) = Some hd.
+
+(* an or-group: instance 1 waits with two heads for the same event *)
+Definition ex_two_heads : state :=
+  {| insts := [ mk_inst 0 Started [mk_head 3] None [1] 1;
+                mk_inst 1 Started [mk_head 1; mk_head 1] (Some 0) [] 0;
+                mk_inst 2 Started [mk_head 1] (Some 0) [] 0 ];
+     queue := [] |}.
